@@ -283,7 +283,7 @@ func (e *Engine) verifyWith(fn *ssa.Function, safe bool, prop string, maxDepth i
 		}
 		seenGuard[o.Guard] = true
 		_ = key
-		c := vc.oblige("cover", fmt.Sprintf("%s/cover/path:%s", fnName(fn), o.Name), nil, o.Guard, "true", fn, token.NoPos, "path to this obligation is feasible")
+		c := vc.oblige("cover", fmt.Sprintf("%s/cover/path:%s", fnName(fn), o.Name), o.Tags, o.Guard, "true", fn, token.NoPos, "path to this obligation is feasible")
 		c.Cut = o.Cut
 		c.Pos = o.Pos
 	}
